@@ -22,7 +22,8 @@ CONSTANTS
   MaxEv,        \* Tor steps after it
   Listeners,    \* listener identities (global circuit+stream listeners)
   MaxUser,      \* bound on user actions (listen/unlisten/wait/close)
-  Waits         \* identities for wait / close requests
+  Waits,        \* identities for wait / close requests
+  Timed         \* TRUE: build_timeout_circuit requests are explored too
 
 VARIABLES
   phase,   \* "pre" | "live"
@@ -63,7 +64,7 @@ MS0 == [live |-> FALSE, st |-> "none", circ |-> 0, tgt |-> "", taddr |-> "", src
 M0 == [c |-> [i \in CircIds |-> MC0],
        s |-> [i \in StreamIds |-> MS0],
        cl |-> <<>>, sl |-> <<>>,           \* TorState.circuit_listeners / stream_listeners
-       w |-> [x \in Waits |-> [k |-> "none", out |-> "p", n |-> 0, id |-> 0]],    \* waits: kind, outcome, times fired
+       w |-> [x \in Waits |-> [k |-> "none", out |-> "p", n |-> 0, id |-> 0, tp |-> ""]],    \* waits: kind, outcome, times fired
        pendAck |-> <<>>,                   \* close commands written, not yet acknowledged: <<kind, id, wait>>
        notes |-> <<>>,                     \* notifications of this step: <<listener, kind, id, extra>>
        wrote |-> <<>>,                     \* control commands written in this step
@@ -75,7 +76,9 @@ Reset(mm) == [mm EXCEPT !.notes = <<>>, !.wrote = <<>>]
 Note(mm, ls, kind, id, extra) ==
   [mm EXCEPT !.notes = @ \o [i \in 1..Len(ls) |-> <<ls[i], kind, id, extra>>]]
 
-FireW(mm, x, out) ==
+\* (a timed build that is closing its circuit after the time-out ends in failure whatever the close's outcome)
+FireW(mm, x, out0) ==
+  LET out == IF mm.w[x].k = "tbuild" /\ mm.w[x].tp = "closing" THEN "err" ELSE out0 IN
   IF mm.w[x].out = "p" THEN [mm EXCEPT !.w[x].out = out, !.w[x].n = @ + 1]
   ELSE [mm EXCEPT !.w[x].n = @ + 1]
 RECURSIVE FireAll(_, _, _)
@@ -84,7 +87,10 @@ FireAll(mm, xs, out) == IF xs = <<>> THEN mm ELSE FireAll(FireW(mm, Head(xs), ou
 \* fire the pending waits of one kind registered on object id (when_built / when_closed observers)
 RECURSIVE FireSet(_, _, _)
 FireSet(mm, S, out) == IF S = {} THEN mm ELSE LET x == CHOOSE y \in S : TRUE IN FireSet(FireW(mm, x, out), S \ {x}, out)
-FireKind(mm, kind, id, out) == FireSet(mm, {x \in Waits : mm.w[x].k = kind /\ mm.w[x].out = "p" /\ mm.w[x].id = id}, out)
+FireKind(mm, kind, id, out) ==
+  FireSet(mm, {x \in Waits : /\ \/ mm.w[x].k = kind
+                                 \/ (kind = "built" /\ mm.w[x].k = "tbuild" /\ mm.w[x].tp = "wait")
+                              /\ mm.w[x].out = "p" /\ mm.w[x].id = id}, out)
 
 ----------------------------------------------------------------------------
 (* Circuit.update(args) as driven by TorState._circuit_update               *)
@@ -99,7 +105,7 @@ OnCirc(mm0, ev) ==
       \* _maybe_create_circuit: a fresh Circuit object, listened to by the global listeners
       obj0  == IF isnew THEN [MC0 EXCEPT !.ls = mm0.cl] ELSE mm0.c[id]
       \* a new Circuit object for a re-used id: requests made on the old object no longer concern this id
-      w1    == IF isnew THEN [x \in Waits |-> IF mm0.w[x].k \in {"built", "closed", "closec"} /\ mm0.w[x].id = id
+      w1    == IF isnew THEN [x \in Waits |-> IF mm0.w[x].k \in {"built", "closed", "closec", "tbuild"} /\ mm0.w[x].tp # "cmd" /\ mm0.w[x].id = id
                                                THEN [mm0.w[x] EXCEPT !.id = 0] ELSE mm0.w[x]]
                ELSE mm0.w
       mm1   == [mm0 EXCEPT !.c[id] = [obj0 EXCEPT !.live = TRUE], !.w = w1]
@@ -308,14 +314,14 @@ UnlistenS(l, s) ==
 Known(c) == m.c[c].st # "none"
 WaitBuilt(x, c) ==
   /\ phase = "live" /\ Known(c) /\ m.w[x].k = "none"
-  /\ m' = LET mm == [Reset(m) EXCEPT !.w[x] = [k |-> "built", out |-> "p", n |-> 0, id |-> c]] IN
+  /\ m' = LET mm == [Reset(m) EXCEPT !.w[x] = [k |-> "built", out |-> "p", n |-> 0, id |-> c, tp |-> ""]] IN
           IF mm.c[c].st = "BUILT" \/ mm.c[c].built = "ok" THEN FireW(mm, x, "ok")
           ELSE IF mm.c[c].built = "err" THEN FireW(mm, x, "err") ELSE mm
   /\ UserStep /\ UNCHANGED <<phase, tc, ts>>
 
 WaitClosed(x, c) ==
   /\ phase = "live" /\ Known(c) /\ m.w[x].k = "none"
-  /\ m' = LET mm == [Reset(m) EXCEPT !.w[x] = [k |-> "closed", out |-> "p", n |-> 0, id |-> c]] IN
+  /\ m' = LET mm == [Reset(m) EXCEPT !.w[x] = [k |-> "closed", out |-> "p", n |-> 0, id |-> c, tp |-> ""]] IN
           IF ~mm.c[c].live THEN FireW(mm, x, "ok") ELSE mm
   /\ UserStep /\ UNCHANGED <<phase, tc, ts>>
 
@@ -327,26 +333,56 @@ Build(x, c, pur, bf) ==
   /\ ~LiveC(c) /\ ~Referenced(c) /\ ~m.c[c].live /\ pur \in Purposes /\ bf \in 1..2
   /\ tc' = [tc EXCEPT ![c] = [st |-> "NEWBORN", path |-> <<>>, pur |-> pur, bf |-> bf]]
   /\ m' = [Reset(m) EXCEPT !.wrote = << <<"EXTENDCIRCUIT", 0>> >>, !.pendAck = << <<"B", c, x>> >>,
-                           !.w[x] = [k |-> "build", out |-> "p", n |-> 0, id |-> c]]
+                           !.w[x] = [k |-> "build", out |-> "p", n |-> 0, id |-> c, tp |-> ""]]
   /\ UserStep /\ UNCHANGED <<phase, ts>>
 
 \* the "EXTENDED c" reply: _find_circuit_after_extend finds or creates the Circuit object and marks it EXTENDED
 \* (a placeholder: the reply says nothing about the status)
 BuildReply(mm, c, x) ==
   LET isnew == ~mm.c[c].live
-      w1  == IF isnew THEN [y \in Waits |-> IF mm.w[y].k \in {"built", "closed", "closec"} /\ mm.w[y].id = c
+      w1  == IF isnew THEN [y \in Waits |-> IF mm.w[y].k \in {"built", "closed", "closec", "tbuild"} /\ mm.w[y].tp # "cmd" /\ mm.w[y].id = c
                                              THEN [mm.w[y] EXCEPT !.id = 0] ELSE mm.w[y]]
              ELSE mm.w
       obj == IF isnew THEN [MC0 EXCEPT !.ls = mm.cl, !.live = TRUE, !.st = "EXTENDED", !.ph = TRUE]
              ELSE [mm.c[c] EXCEPT !.st = "EXTENDED", !.ph = TRUE]
       m1  == [mm EXCEPT !.c[c] = obj, !.w = w1]
       m2  == IF isnew THEN Note(m1, mm.cl, "new", c, "") ELSE m1
-  IN FireW(m2, x, "ok")
+  IN IF mm.w[x].k = "tbuild"
+     THEN \* build_timeout_circuit: timed out already -> the answer is dropped (nothing is created from it);
+          \* otherwise it goes on to wait for the circuit to be built
+          IF mm.w[x].tp = "cancelled" THEN mm
+          ELSE IF m2.c[c].built = "ok" THEN FireW(m2, x, "ok")
+          ELSE IF m2.c[c].built = "err" THEN FireW(m2, x, "err")
+          ELSE [m2 EXCEPT !.w[x].tp = "wait"]
+     ELSE FireW(m2, x, "ok")
+
+\* circuit.build_timeout_circuit(): as Build, then waits for the circuit to be BUILT; when the time is up first
+\* (BuildTimeout) the circuit - if the answer has told us which one it is - is closed and the request fails
+TimedBuild(x, c, pur, bf) ==
+  /\ phase = "live" /\ m.w[x].k = "none" /\ m.pendAck = <<>>
+  /\ ~LiveC(c) /\ ~Referenced(c) /\ ~m.c[c].live /\ pur \in Purposes /\ bf \in 1..2
+  /\ tc' = [tc EXCEPT ![c] = [st |-> "NEWBORN", path |-> <<>>, pur |-> pur, bf |-> bf]]
+  /\ m' = [Reset(m) EXCEPT !.wrote = << <<"EXTENDCIRCUIT", 0>> >>, !.pendAck = << <<"B", c, x>> >>,
+                           !.w[x] = [k |-> "tbuild", out |-> "p", n |-> 0, id |-> c, tp |-> "cmd"]]
+  /\ UserStep /\ UNCHANGED <<phase, ts>>
+
+BuildTimeout(x) ==
+  /\ phase = "live" /\ m.w[x].k = "tbuild" /\ m.w[x].tp \in {"cmd", "wait"} /\ m.w[x].out = "p"
+  /\ LET c  == m.w[x].id
+         mm == Reset(m) IN
+     m' = IF m.w[x].tp = "cmd"
+          THEN FireW([mm EXCEPT !.w[x].tp = "cancelled"], x, "err")
+          ELSE LET m1 == [mm EXCEPT !.w[x].tp = "closing"] IN
+               IF m1.c[c].closing THEN [m1 EXCEPT !.c[c].closeWaits = Append(@, x)]
+               ELSE [m1 EXCEPT !.c[c].closing = TRUE,
+                               !.wrote = IF m1.pendAck = <<>> THEN Append(@, <<"CLOSECIRCUIT", c>>) ELSE @,
+                               !.pendAck = Append(@, <<"C", c, x>>)]
+  /\ UserStep /\ UNCHANGED <<phase, tc, ts>>
 
 \* circuit.close(): completes only when Tor reports the circuit gone
 CloseC(x, c) ==
   /\ phase = "live" /\ Known(c) /\ m.w[x].k = "none" /\ m.c[c].st # "FAILED"
-  /\ m' = LET mm == [Reset(m) EXCEPT !.w[x] = [k |-> "closec", out |-> "p", n |-> 0, id |-> c]] IN
+  /\ m' = LET mm == [Reset(m) EXCEPT !.w[x] = [k |-> "closec", out |-> "p", n |-> 0, id |-> c, tp |-> ""]] IN
           IF mm.c[c].st = "CLOSED" THEN FireW(mm, x, "ok")
           ELSE IF mm.c[c].closing THEN [mm EXCEPT !.c[c].closeWaits = Append(@, x)]
           ELSE [mm EXCEPT !.c[c].closing = TRUE,
@@ -356,7 +392,7 @@ CloseC(x, c) ==
 
 CloseS(x, s) ==
   /\ phase = "live" /\ m.s[s].live /\ m.w[x].k = "none"
-  /\ m' = LET mm == [Reset(m) EXCEPT !.w[x] = [k |-> "closes", out |-> "p", n |-> 0, id |-> s]] IN
+  /\ m' = LET mm == [Reset(m) EXCEPT !.w[x] = [k |-> "closes", out |-> "p", n |-> 0, id |-> s, tp |-> ""]] IN
           IF mm.s[s].closeWaits # <<>> THEN [mm EXCEPT !.s[s].closeWaits = Append(@, x)]
           ELSE [mm EXCEPT !.s[s].closeWaits = <<x>>,
                           !.wrote = IF mm.pendAck = <<>> THEN Append(@, <<"CLOSESTREAM", s>>) ELSE @,
@@ -415,7 +451,8 @@ UserNext ==
   \/ \E l \in Listeners, s \in StreamIds : UnlistenS(l, s)
   \/ \E x \in Waits, c \in CircIds : WaitBuilt(x, c) \/ WaitClosed(x, c) \/ CloseC(x, c)
   \/ \E x \in Waits, s \in StreamIds : CloseS(x, s)
-  \/ \E x \in Waits, c \in CircIds, p \in Purposes, bf \in 1..2 : Build(x, c, p, bf)
+  \/ \E x \in Waits, c \in CircIds, p \in Purposes, bf \in 1..2 : Build(x, c, p, bf) \/ (Timed /\ TimedBuild(x, c, p, bf))
+  \/ \E x \in Waits : BuildTimeout(x)
 
 Next ==
   \/ TorNext /\ (IF phase = "pre" THEN cnt.pre < MaxPre ELSE cnt.ev < MaxEv)
@@ -474,5 +511,12 @@ CloseWaits ==
      \* (a close request whose command Tor refused has failed; every other one completes)
      /\ (m.w[x].k = "closec" /\ ~m.c[m.w[x].id].live /\ m.pendAck = <<>>) => m.w[x].out # "p"
      /\ (m.w[x].k = "closes" /\ ~m.s[m.w[x].id].live) => m.w[x].out = "ok"
+\* a timed build succeeds only with a circuit that was BUILT in time; once the time is up it fails - at once if the
+\* circuit is not known yet, else as soon as the circuit it closes is gone
+TimedBuilds ==
+  \A x \in Waits : m.w[x].k = "tbuild" =>
+     /\ (m.w[x].out = "ok" => m.w[x].tp = "wait")
+     /\ (m.w[x].tp = "cancelled" => m.w[x].out = "err")
+     /\ (m.w[x].tp = "closing" /\ m.w[x].id # 0 /\ ~m.c[m.w[x].id].live /\ m.pendAck = <<>>) => m.w[x].out = "err"
 TypeOK == phase \in {"pre", "live"}
 =============================================================================
